@@ -589,3 +589,123 @@ func (g *QGen) GenProjection(all []string) []Proj {
 	}
 	return out
 }
+
+// timeBindings lists the bindings of a clause that hold a time anchor when the clause matches.
+func timeBindings(c Clause) []string {
+	var out []string
+	for _, b := range []string{c.P.AnchorB, c.P.At, c.O.AnchorB, c.O.At} {
+		if b != "" {
+			out = append(out, b)
+		}
+	}
+	return out
+}
+
+// AliasBounds rewrites some interval sides into bindings that ANOTHER clause provides as a
+// time value ("id"@[?lo,?hi], "id"@[?lo,], "id"@[,?hi]); when no clause has an interval form
+// but some clause has a temporal predicate form, that form may be turned into such an
+// interval. Returns the clauses and whether anything was rewritten.
+func (g *QGen) AliasBounds(cs []Clause, pct int, objToo bool) ([]Clause, bool) {
+	out := append([]Clause{}, cs...)
+	changed := false
+	usedAsSide := map[string]bool{} // bindings already serving as an interval side: their provider must stay
+	for i := range out {
+		var pool []string
+		own := map[string]bool{}
+		for _, b := range out[i].Bindings() {
+			own[b] = true
+		}
+		for j := range out {
+			if j == i || out[j].Optional {
+				continue
+			}
+			for _, b := range timeBindings(out[j]) {
+				// type-correct statements only: the binding holds a time wherever it occurs
+				if !own[b] && onlyTimePositions(out, b) {
+					pool = append(pool, b)
+				}
+			}
+		}
+		if len(pool) == 0 || !g.maybe(pct, "alias-bound") {
+			continue
+		}
+		c := out[i]
+		if c.P.Bound == nil && c.O.Bound == nil {
+			// turn a temporal predicate form into an interval of the same id
+			switch {
+			case c.P.Pred != nil && c.P.Pred.Anchor != nil && c.P.At == "":
+				c.P = PPos{Bound: &Bound{ID: c.P.Pred.ID}, As: c.P.As, IDAlias: c.P.IDAlias}
+			case c.P.AnchorID != "" && c.P.At == "" && !usedElsewhere(out, i, c.P.AnchorB) && !usedAsSide[c.P.AnchorB]:
+				c.P = PPos{Bound: &Bound{ID: c.P.AnchorID}, As: c.P.As, IDAlias: c.P.IDAlias}
+			default:
+				continue
+			}
+		}
+		sides := []*Bound{c.P.Bound}
+		if objToo {
+			sides = append(sides, c.O.Bound)
+		}
+		for _, b := range sides {
+			if b == nil {
+				continue
+			}
+			nb := *b
+			switch gen.Uniform(g.T, 3, "alias-side") {
+			case 0:
+				nb.Lo, nb.LoB = nil, gen.Pick(g.T, pool, "alias-lo")
+			case 1:
+				nb.Hi, nb.HiB = nil, gen.Pick(g.T, pool, "alias-hi")
+			default:
+				nb.Lo, nb.LoB = nil, gen.Pick(g.T, pool, "alias-lo2")
+				nb.Hi, nb.HiB = nil, gen.Pick(g.T, pool, "alias-hi2")
+			}
+			if b == c.P.Bound {
+				c.P.Bound = &nb
+			} else {
+				c.O.Bound = &nb
+			}
+			usedAsSide[nb.LoB], usedAsSide[nb.HiB] = true, true
+			changed = true
+			break
+		}
+		out[i] = c
+	}
+	return out, changed
+}
+
+// usedElsewhere: binding b occurs in a clause other than clause i.
+func usedElsewhere(cs []Clause, i int, b string) bool {
+	for j, c := range cs {
+		if j == i {
+			continue
+		}
+		for _, x := range c.Bindings() {
+			if x == b {
+				return true
+			}
+		}
+	}
+	return false
+}
+
+// onlyTimePositions: every occurrence of binding b in the clauses is an anchor position
+// ("id"@[?b] or AT ?b), so b holds a time in every solution.
+func onlyTimePositions(cs []Clause, b string) bool {
+	for _, c := range cs {
+		n := 0
+		for _, x := range c.Bindings() {
+			if x == b {
+				n++
+			}
+		}
+		for _, x := range timeBindings(c) {
+			if x == b {
+				n--
+			}
+		}
+		if n != 0 {
+			return false
+		}
+	}
+	return true
+}
